@@ -140,6 +140,10 @@ def parseOp (d : DState) (f : List String) : Option Op :=
       some (.fraud (kv f "auth" = "gov") (raOf d r) (kvN f "h") (kvN f "rev")
         ((optActor (kv f "punish")).map fun _ => actorOf d (kv f "punish"))
         ((optActor (kv f "rewardee")).map fun _ => actorOf d (kv f "rewardee")))
+  | "punish" :: a :: _ =>
+      -- the standalone governance PunishSequencerProposal: `punish a<i> rewardee=<a<k>|m<k>|-> auth=<gov|a<j>>`
+      some (.punish (kv f "auth" = "gov") (actorOf d a)
+        ((optActor (kv f "rewardee")).map fun _ => actorOf d (kv f "rewardee")))
   | "obsolete" :: _ =>
       let v := kv f "v"
       some (.obsolete (kv f "auth" = "gov") (if v = "-" then [] else (v.splitOn ",").map nat!))
